@@ -32,8 +32,12 @@ def gkey(g):
     return cname(g[0]) if len(g) == 1 else tuple(cname(c) for c in g)
 
 
+LAST_VARS = []
+
+
 def build(kbs, worlds):
     variables = [Variable(f"x{i}") for i in range(6)]
+    LAST_VARS[:] = variables
     objs = []
     for i, o in enumerate(kbs):
         kd, ops, maps, nv, p, ovars = o[:6]
